@@ -11,7 +11,9 @@ RULE = ("definitions of the documented shape (0-4 optional tags, with or without
         "on the extended table and with the model; accepted uses must be recorded under the defined names and survive print/parse; the "
         "name must be unknown before registration; re-registration under the same name must take effect; non-trivial = use with ≥ 1 tag")
 
-TAGPOOL = [":alpha", ":beta", ":gamma", ":delta", ":eps", ":zeta", ":eta", ":theta"]
+TAGPOOL = [":alpha", ":beta", ":gamma", ":delta", ":eps", ":zeta", ":eta", ":theta",
+           # the shortest tags the grammar allows (a colon and ONE identifier character), digits and underscores inside
+           ":u", ":x", ":_", ":a1", ":t_2"]
 
 
 def gen_definition(r, idx):
@@ -156,14 +158,20 @@ def run(ctx):
     samples = []
     safe_count = {}
     base_table = list((ctx.generated or {}).get("table_wire", []))
+    registered_names = set()
     for i in range(ndefs):
         name = "cmd" + "".join(r.choice("abcdefgh") for _ in range(4)) + str(i)
+        if i % 6 == 3 and i // 6 < 20:
+            name = "qwzjkvxybgmluphdcrn_"[i // 6] if i // 6 != 19 else "_"     # the shortest names the grammar allows: one identifier character
+        elif i % 6 == 5:
+            name = "_c%d_x" % i                                                # underscores at the edges and inside
         d = gen_definition(r, i)
         # unknown before registration
         for spelling in (name, name.upper(), name.capitalize()):
             p = Parser()
             if p.parse(wrap(d, [spelling.encode(), b'"x"'], set())) is not False or "unknown command" not in p.error:
                 viol.append({"what": "name %r known before registration: %r" % (spelling, p.error), "input": spelling})
+        registered_names.add(name.lower())
         rounds = [d]
         if i % 4 == 0:
             rounds.append(gen_definition(r, 1000 + i))  # re-registration under the same name
@@ -230,6 +238,7 @@ def run(ctx):
         k = len(name) // 2
         near = [name + "_", "_" + name, name + "__", "__" + name + "__", name[:k] + "_" + name[k:], name[:-1], name + name[-1], name + "command",
                 name.capitalize() + "Command", name + "_command"]
+        near = [x for x in dict.fromkeys(near) if x and x != name and x.lower() not in registered_names]
         for spelling in near:
             texts = [wrap(d, [spelling.encode(), b'"x"'], set())]
             if cases:
